@@ -1,5 +1,6 @@
 #!/bin/bash
 # tools/refactor_eval.sh <file.diff> [checks...]  apply a behaviour-preserving refactoring of /repo, run the checks, revert.
+export VERIF_EVIDENCE_DIR=/verif/.scratch/evidence
 # every check must exit 0 (a non-zero exit is a false alarm of the machinery).
 f="$1"; shift
 cd /verif
